@@ -134,6 +134,7 @@ class Scripted : public Oomd::Engine::BasePlugin {
     if (auto c = args.find("cgroup"); c != args.end()) cgroupArg_ = c->second;
     if (auto f = args.find("fail_init"); f != args.end()) return 1;
     if (auto b = args.find("busy"); b != args.end()) busy_ = atof(b->second.c_str());
+    if (auto b = args.find("post_action_delay"); b != args.end()) ownDelay_ = atoi(b->second.c_str());
     Call c;
     c.id = id_;
     c.method = "init";
@@ -156,6 +157,9 @@ class Scripted : public Oomd::Engine::BasePlugin {
       vb::advanceClock(busy_);
       calls.back().tEnd = vb::nowSec();
     }
+    // plugin-level post_action_delay, requested the way BaseKillPlugin does when it stops the chain
+    if (r == 1 && ownDelay_ >= 0)
+      if (auto rs = ctx.getInvokingRuleset()) (*rs)->pause_actions(std::chrono::seconds(ownDelay_));
     return r == 0 ? Oomd::Engine::PluginRet::CONTINUE
                   : r == 1 ? Oomd::Engine::PluginRet::STOP : Oomd::Engine::PluginRet::ASYNC_PAUSED;
   }
@@ -188,6 +192,7 @@ class Scripted : public Oomd::Engine::BasePlugin {
   }
   std::string id_, inst_, cgroupArg_;
   double busy_ = 0;
+  int ownDelay_ = -1;
 };
 
 // `verif_wrap`: transparent observer around a REAL plugin (args: wrap=<registered name>, id=<id>, rest
